@@ -138,10 +138,20 @@ class _RunnerIterator(iter_utils.MultiplexIterator[_ValueT]):
     ) -> Iterator[tree.TreeLike]:
       """Call a chain of functions in sequence."""
       result = input_iterator
+      generators = []
       for fn in self._runner.fns:
         fn = dataclasses.replace(fn, ignore_error=self._ignore_error)
         result = fn.iterate(result)
-      yield from result
+        if isinstance(result, Generator):
+          generators.append(result)
+      try:
+        yield from result
+      finally:
+        # Finalizes the suspended operators (e.g., closes the sinks) now, also
+        # when one of them raised: the raised error keeps their frames alive
+        # for as long as it is kept (by a queue, by the caller).
+        for generator in reversed(generators):
+          generator.close()
 
     self.batch_index = 0
     super().__init__(
